@@ -4,8 +4,8 @@ META = dict(
     explanation="Sequential pieces only. Sequences of queries (as successive keystrokes produce) are run through Pattern.Match on a full chunk with a "
                 "shared ChunkCache and pattern cache; after each query the list must equal an uncached evaluation (cache narrowing must be invisible). "
                 "BuildPattern's cacheable flag / cache key are checked on grammar-generated queries (shared harness with C01).",
-    functions=["fzf.(*Pattern).Match", "fzf.(*Pattern).matchChunk", "fzf.(*ChunkCache).{Add,Lookup,Search}", "fzf.BuildPattern", "fzf.(*Pattern).buildCacheKey", "fzf.(*Pattern).MatchItem"],
-    outside=["everything timed: coordinator event handling, reader progress, terminal UpdateList ordering, cancellation inside scan", "Matcher.Loop request selection and merger cache (not lifted yet)"],
+    functions=["fzf.(*Pattern).Match", "fzf.(*Pattern).matchChunk", "fzf.(*ChunkCache).{Add,Lookup,Search}", "fzf.BuildPattern", "fzf.(*Pattern).buildCacheKey", "fzf.(*Pattern).MatchItem", "fzf.(*Matcher).Loop", "fzf.(*Matcher).scan", "fzf.(*Matcher).Reset", "fzf.NewMatcher", "util.EventBox (real code over no-op locks and a cooperative sync.Cond)"],
+    outside=["everything timed: coordinator event handling, reader progress, terminal UpdateList ordering, cancellation inside scan", "which of two simultaneously pending requests Matcher.Loop serves (map order)", "real goroutine scheduling: Loop runs as a deterministic coroutine, scan's workers run inline"],
     models=["regexp Split(\" +\") model", "sync.Mutex no-op"],
     assumptions=["chunkSize scaled to 10 (queryCacheMax = 2)", "ten short lines (some characters symbolic), queries from a fixed list of 12 covering plain/anchored/negated/OR/AND terms"],
 )
@@ -20,4 +20,10 @@ def suites(tier):
     for cfg in product(fuzzy=[0, 1], case=[0], norm=[1]):
         cfg.update(sets=2, alts=2 if not q else 1, len=2 if not q else 1)
         jobs.append(dict(id=jid("key", cfg), func="zzH_C01_parse", cfg=cfg))
-    return [src_suite("src", jobs, chunkSize=10)]
+    s1 = src_suite("src", jobs, chunkSize=10)
+    ljobs = []
+    for tail in (0, 3):
+        cfg = dict(tail=tail, initial=4, steps=3 if q else 4, symbolic=0 if q else 1)
+        ljobs.append(dict(id=jid("loop", cfg), func="zzH_C08_loop", cfg=cfg, go_inline=True, coroutine_funcs=["Loop"]))
+    s2 = src_suite("loop", ljobs, chunkSize=5)
+    return [s1, s2]
